@@ -246,10 +246,20 @@ fn partition(e: &str) -> String {
     match Glob::new(e) {
         Err(_) => "err".to_string(),
         Ok(g) => {
+            // the two wrappers: the postfix or else the empty glob / the tree glob
+            let (pe, ge) = g.clone().partition_or_empty();
+            let (pt, gt) = g.clone().partition_or_tree();
+            let wrappers = format!(
+                " ore={}/{} ort={}/{}",
+                hex(&pe.to_string_lossy()),
+                hex(ge.verif_pattern()),
+                hex(&pt.to_string_lossy()),
+                hex(gt.verif_pattern())
+            );
             let (pre, post) = g.partition();
             let prefix = hex(&pre.to_string_lossy());
             match post {
-                None => format!("prefix={} post=none", prefix),
+                None => format!("prefix={} post=none{}", prefix, wrappers),
                 Some(p) => {
                     let caps: Vec<String> = p
                         .captures()
@@ -279,7 +289,7 @@ fn partition(e: &str) -> String {
                         hex(&pre2.to_string_lossy()),
                         post2.map(|x| hex(&x.to_string())).unwrap_or_else(|| "none".into()),
                         rebuilt,
-                    )
+                    ) + &wrappers
                 },
             }
         },
